@@ -4,6 +4,7 @@ import (
 	"fmt"
 	"net"
 	"net/netip"
+	"sort"
 	"strings"
 	"time"
 
@@ -29,6 +30,24 @@ func routeProbe(u uhppote.IUHPPOTE, d *fake.Driver, dev uint32) string {
 	return d.Calls[0].Method + " " + d.Calls[0].Addr
 }
 
+// configOf: the client's own copy of the configuration, as a fresh DeviceList shows it
+func configOf(u uhppote.IUHPPOTE) string {
+	list := u.DeviceList()
+	ids := []uint32{}
+	for k := range list {
+		ids = append(ids, k)
+	}
+	sort.Slice(ids, func(i, j int) bool { return ids[i] < ids[j] })
+	out := []string{}
+	for _, k := range ids {
+		v := list[k]
+		// (door names are left out: the entries of the returned map share their door-name slices with the client, and
+		// the property speaks of where requests go - names never decide that)
+		out = append(out, fmt.Sprintf("%d:%d/%s/%v/%s", k, v.DeviceID, v.Name, v.Address, v.Protocol))
+	}
+	return strings.Join(out, " ")
+}
+
 func streamInsulate(c *ctx) {
 	r := c.r
 	w := c.w
@@ -44,7 +63,7 @@ func streamInsulate(c *ctx) {
 		}
 		devices := append([]uhppote.Device{}, g.devices...)
 		u, d := newClient(devices, g.broadcast)
-		before := routeProbe(u, d, dev)
+		before := routeProbe(u, d, dev) + " ; " + configOf(u)
 		what := []string{}
 		for i := range devices {
 			switch r.Intn(4) {
@@ -75,7 +94,7 @@ func streamInsulate(c *ctx) {
 			delete(list, k+1)
 		}
 		list[dev] = uhppote.Device{DeviceID: dev, Address: types.ControllerAddrFrom(netip.MustParseAddr("10.2.2.2"), 2), Protocol: "tcp"}
-		after := routeProbe(u, d, dev)
+		after := routeProbe(u, d, dev) + " ; " + configOf(u)
 		out := "unchanged"
 		if after != before {
 			out = "changed: " + before + " -> " + after
@@ -91,7 +110,9 @@ func streamInsulate(c *ctx) {
 		probes := []probe{
 			{"GetDevice", func(u uhppote.IUHPPOTE) (func() string, error) {
 				x, err := u.GetDevice(dev)
-				return func() string { return fmt.Sprintf("%v %v %v %x %v", x.IpAddress, x.SubnetMask, x.Gateway, []byte(x.MacAddress), x.Date) }, err
+				return func() string {
+					return fmt.Sprintf("%v %v %v %x %v", x.IpAddress, x.SubnetMask, x.Gateway, []byte(x.MacAddress), x.Date)
+				}, err
 			}, opDefs[0]},
 			{"GetListener", func(u uhppote.IUHPPOTE) (func() string, error) {
 				a, i, err := u.GetListener(dev)
